@@ -324,6 +324,26 @@ impl<'tcx> Ex<'tcx> {
                 }
             }
         }
+        if let DefKind::Ctor(of, _) = tcx.def_kind(d) {
+            // tuple struct / variant constructor used as a function
+            let mut c = J::obj();
+            match of {
+                rustc_hir::def::CtorOf::Struct => {
+                    let adt = tcx.parent(d);
+                    c.put("adt", J::s(self.def_path(adt)));
+                    c.put("variant", J::Int(0));
+                }
+                rustc_hir::def::CtorOf::Variant => {
+                    let var = tcx.parent(d);
+                    let adt = tcx.parent(var);
+                    c.put("adt", J::s(self.def_path(adt)));
+                    let ad = tcx.adt_def(adt);
+                    let idx = ad.variant_index_with_id(var);
+                    c.put("variant", J::Int(idx.as_usize() as i128));
+                }
+            }
+            o.put("ctor", c);
+        }
         let resolved = match tcx.def_kind(d) {
             DefKind::Fn | DefKind::AssocFn | DefKind::Ctor(..) => {
                 if matches!(tcx.def_kind(d), DefKind::Ctor(..)) {
@@ -736,6 +756,7 @@ impl<'tcx> Ex<'tcx> {
                         o.put("adt", J::s(self.def_path(*d)));
                         o.put("variant", J::Int(vi.as_usize() as i128));
                         let adt = self.tcx.adt_def(*d);
+                        self.note_adt(adt, ty::GenericArgs::empty());
                         o.put("vname", J::s(adt.variant(*vi).name.to_string()));
                         if let Some(f) = fi {
                             o.put("union_field", J::Int(f.as_usize() as i128));
@@ -1024,7 +1045,7 @@ impl<'tcx> Ex<'tcx> {
         let body: &Body<'tcx> = tcx.instance_mir(inst.def);
         o.put("body", self.body_json(inst, env, body, depth));
         if let InstanceKind::Item(did) = inst.def {
-            if did.is_local() && !tcx.is_coroutine(did) {
+            if !tcx.is_coroutine(did) && (did.is_local() || tcx.is_mir_available(did)) {
                 // promoted constants that could not be evaluated to bytes are exported as bodies
                 let proms = tcx.promoted_mir(did);
                 let mut pv = Vec::new();
